@@ -233,6 +233,12 @@ var checkHostile = register("c18.hostile", func(c HostileCase) (v *Violation) {
 			if isoLike(c.Kind, s) {
 				return nil
 			}
+			// leniencies of Go's time layouts (one-digit fields, a comma before the fraction, ...):
+			// a string made only of datetime characters that Go reads as this layout does denote
+			// a value of the type; what must never be accepted is a non-string or text with other characters
+			if dtCharsOnly.MatchString(s) {
+				return nil
+			}
 		}
 		return violf("UnmarshalJSON(%q) into a %s returned no error although the input is not a string holding a %s (value now %q)", c.Data, c.Kind, c.Kind, val.String())
 	}
@@ -246,21 +252,27 @@ var checkHostile = register("c18.hostile", func(c HostileCase) (v *Violation) {
 func isoLike(kind, s string) bool {
 	frac := `(\.\d+)?` // more than nine digits are accepted and truncated
 	zone := `(Z|[+-]\d{2}(:\d{2}(:\d{2})?)?)`
+	// Go's time layouts tolerate one-digit fields; such strings still denote a value of the type
+	d2 := `\d{1,2}`
+	date := `\d{4}-` + d2 + `-` + d2
+	clock := d2 + `:` + d2 + `:` + d2
 	var re string
 	switch kind {
 	case "date":
-		re = `^\d{4}-\d{2}-\d{2}$`
+		re = `^` + date + `$`
 	case "time":
-		re = `^\d{2}:\d{2}:\d{2}` + frac + `$`
+		re = `^` + clock + frac + `$`
 	case "timetz":
-		re = `^\d{2}:\d{2}:\d{2}` + frac + zone + `$`
+		re = `^` + clock + frac + zone + `$`
 	case "timestamp":
-		re = `^\d{4}-\d{2}-\d{2}T\d{2}:\d{2}:\d{2}` + frac + `$`
+		re = `^` + date + `T` + clock + frac + `$`
 	default:
-		re = `^\d{4}-\d{2}-\d{2}T\d{2}:\d{2}:\d{2}` + frac + zone + `$`
+		re = `^` + date + `T` + clock + frac + zone + `$`
 	}
 	return regexp.MustCompile(re).MatchString(s)
 }
+
+var dtCharsOnly = regexp.MustCompile(`^[0-9][0-9:.,+\-TZ]*[0-9Z]$`)
 
 var dtKinds = []string{"date", "time", "timetz", "timestamp", "timestamptz"}
 
